@@ -33,3 +33,9 @@ VARIANTS += [
                                                          "            decimals = {\n                c: self.precision for c in list(df.select_dtypes(include='float')) + list(ref_df.select_dtypes(include='float'))\n            }\n            df = df.round(decimals).reset_index(drop=True)\n            ref_df = ref_df.round(decimals).reset_index(drop=True)"),
       kind='refactor'),
 ]
+
+VARIANTS += [
+    M('C05', 'revert-fix-unguarded-item-on-reduction', E(CP, "    return ColDiff(different, int(different.sum()))", "    return ColDiff(different, different.sum().item())"),
+      rule='C05-IEF', key='NOITEM'),
+    M('C05', 'refactor-item-through-py_val-guard', E(CP, "    return ColDiff(different, int(different.sum()))", "    n = different.sum()\n    if hasattr(n, 'item'):\n        n = n.item()\n    return ColDiff(different, n)"), kind='refactor'),
+]
